@@ -490,3 +490,118 @@ pub fn mapping_histories(args: &[String]) {
     }
     f.flush().unwrap();
 }
+
+// ---------------------------------------------------------------------------
+// C18: long random histories on a real Pool for Trace_Pool.tla
+// ---------------------------------------------------------------------------
+pub fn pool_histories(args: &[String]) {
+    use resolvo::{NameId, SolvableId, StringId, VersionSetId, VersionSetUnionId};
+    use std::io::Write;
+    let n: u64 = crate::get_arg(args, "--n").map(|s| s.parse().unwrap()).unwrap_or(10);
+    let ops: u32 = crate::get_arg(args, "--ops").map(|s| s.parse().unwrap()).unwrap_or(600);
+    let seed: u64 = crate::get_arg(args, "--seed").map(|s| s.parse().unwrap()).unwrap_or(1);
+    let out = crate::get_arg(args, "--out").expect("--out");
+    let mut f = std::io::BufWriter::new(std::fs::File::create(out).unwrap());
+    let mut rng = crate::rng::Rng::new(seed ^ 0x9001);
+    for h in 0..n {
+        writeln!(f, "{}", json!({"ev":"reset","id":h + 1})).unwrap();
+        let mut t = PoolTarget::new();
+        // value alphabets: large enough that most calls intern something new, small
+        // enough that repeats are frequent
+        let name_vals = rng.range(150, 400);
+        let str_vals = rng.range(150, 400);
+        for _ in 0..ops {
+            let mut a = 0u32;
+            let mut b = 0u32;
+            let mut ms: Vec<u32> = vec![];
+            let mut ret: i64;
+            let have_names = t.n[0] > 0;
+            let have_vss = t.n[2] > 0;
+            let op = match rng.below(20) {
+                0..=4 => "name",
+                5..=7 => "string",
+                8..=11 if have_names => "vs",
+                12..=15 if have_names => "solvable",
+                16..=17 if have_vss => "union",
+                18 => "lookup",
+                _ => "name",
+            };
+            match op {
+                "name" => {
+                    a = rng.range(1, name_vals);
+                    let id = t.pool.intern_package_name(format!("n{a}"));
+                    t.note(0, id.0);
+                    ret = id.0 as i64;
+                }
+                "string" => {
+                    a = rng.range(1, str_vals);
+                    let id = t.pool.intern_string(format!("s{a}"));
+                    t.note(1, id.0);
+                    ret = id.0 as i64;
+                }
+                "vs" => {
+                    a = rng.below(t.n[0] as u64) as u32;
+                    b = rng.range(1, 6);
+                    let id = t.pool.intern_version_set(NameId(a), Vs(b));
+                    t.note(2, id.0);
+                    ret = id.0 as i64;
+                }
+                "solvable" => {
+                    a = rng.below(t.n[0] as u64) as u32;
+                    b = rng.range(1, 9);
+                    let id = t.pool.intern_solvable(NameId(a), b);
+                    t.note(3, id.0);
+                    ret = id.0 as i64;
+                }
+                "union" => {
+                    let k = rng.range(1, 4);
+                    for _ in 0..k {
+                        ms.push(rng.below(t.n[2] as u64) as u32);
+                    }
+                    let id = t.pool.intern_version_set_union(
+                        VersionSetId(ms[0]),
+                        ms[1..].iter().map(|&m| VersionSetId(m)),
+                    );
+                    t.note(4, id.0);
+                    ret = id.0 as i64;
+                }
+                _ => {
+                    a = rng.range(1, name_vals);
+                    ret = t.pool.lookup_package_name(&format!("n{a}")).map(|x| x.0 as i64).unwrap_or(-1);
+                }
+            }
+            let stable = t.check_and_hold();
+            // resolve one further id and report its value
+            let val = |s: &str| -> u32 { s[1..].parse().unwrap() };
+            let tables = ["name", "string", "vs", "solvable", "union"];
+            let cand: Vec<usize> = (0..5).filter(|&i| t.n[i] > 0).collect();
+            let (rt, rid, rval): (&str, u32, Vec<u32>) = if cand.is_empty() {
+                ("name", 0, vec![u32::MAX])
+            } else {
+                let ti = *rng.pick(&cand);
+                let id = rng.below(t.n[ti] as u64) as u32;
+                let v = match ti {
+                    0 => vec![val(t.pool.resolve_package_name(NameId(id)))],
+                    1 => vec![val(t.pool.resolve_string(StringId(id)))],
+                    2 => vec![
+                        t.pool.resolve_version_set_package_name(VersionSetId(id)).0,
+                        t.pool.resolve_version_set(VersionSetId(id)).0,
+                    ],
+                    3 => {
+                        let s = t.pool.resolve_solvable(SolvableId(id));
+                        vec![s.name.0, s.record]
+                    }
+                    _ => t.pool.resolve_version_set_union(VersionSetUnionId(id)).map(|v| v.0).collect(),
+                };
+                (tables[ti], id, v)
+            };
+            if ret < -1 {
+                ret = -1;
+            }
+            let rv: Vec<i64> = rval.iter().map(|&x| if x == u32::MAX { -1 } else { x as i64 }).collect();
+            writeln!(f, "{}", json!({"ev":"op","op":op,"a":a,"b":b,"ms":ms,"ret":ret,"stable":stable,
+                "rt":rt,"rid":rid,"rval":rv})).unwrap();
+        }
+    }
+    f.flush().unwrap();
+}
